@@ -180,6 +180,28 @@ def part_paths(ctx: Ctx) -> Result:
                     stack += [k for k in c.co_consts if hasattr(k, "co_code")]
             if i % 997 == 0:
                 res.sample({"part": "P", "file": f, "verdict": False})
+        # the verdict does not depend on where the process happens to stand: a sample of the same files judged again with
+        # the working directory at the file-system root, at each library root and at the parent of each
+        here = os.getcwd()
+        try:
+            for cwd in ["/"] + ROOTS + sorted({os.path.dirname(r) for r in ROOTS}):
+                if not os.path.isdir(cwd):
+                    continue
+                os.chdir(cwd)
+                clear_cache()
+                for i in range(si, len(files), nshards * 25):
+                    f = files[i]
+                    res.states += 1
+                    res.transitions += 1
+                    res.evaluations += 1
+                    res.validated += 1
+                    got = default_code_filter(uniq(t, f))
+                    if got != oracle(f):
+                        res.violate(Violation(ID, "verdict", "library-file-admitted:working-directory" if got else "file-rejected:working-directory", {"part": "P", "file": f, "cwd": cwd}, f"with the working directory at {cwd}: default_code_filter({f}) = {got}, oracle {oracle(f)}"))
+                res.oblige("P:working-directory-above-the-libraries", True)
+        finally:
+            os.chdir(here)
+            clear_cache()
         return res
 
     res = run_shards(ctx, work, list(range(nshards)))
@@ -771,7 +793,7 @@ def run(ctx: Ctx) -> Result:
     res.merge(part_paths(ctx))
     res.merge(part_misc(ctx))
     res.merge(part_run(ctx))
-    for o in ("P:symlinked-spelling-of-library-path", "A:allow-list-admits-library-package", "A:allow-list-admits-user-module", "A:allow-list-rejects", "C:equal-code-different-verdicts", "F:twin-code-objects-equal", "A:allow-list-name-equal-to-prefix-component", "U:mod=True", "U:link_to_lib=False", "U:link_to_user=True", "U:near-root-path-admitted", "U:near-root-path-rejected", "R:modules-named-like-parts-of-__main__", "R:one-file-two-identities", "R:default-config-sessions-with-changing-allow-list"):
+    for o in ("P:symlinked-spelling-of-library-path", "P:working-directory-above-the-libraries", "A:allow-list-admits-library-package", "A:allow-list-admits-user-module", "A:allow-list-rejects", "C:equal-code-different-verdicts", "F:twin-code-objects-equal", "A:allow-list-name-equal-to-prefix-component", "U:mod=True", "U:link_to_lib=False", "U:link_to_user=True", "U:near-root-path-admitted", "U:near-root-path-rejected", "R:modules-named-like-parts-of-__main__", "R:one-file-two-identities", "R:default-config-sessions-with-changing-allow-list"):
         res.obligations.setdefault(o, False)
     res.nontrivial_n = res.states
     return res
